@@ -42,8 +42,20 @@ NUMERIC = {
 }
 
 
+# items that are falsy in Python (0, "") next to ordinary ones
+FALSY = {
+    "a": (0, 5, 3),
+    "b": ("", "b", "ab"),
+    "c": ("c1", "c2", "c3"),
+    "d": ("d1", "d2", "d3"),
+    "e": ("e1", "e2", "e3"),
+}
+
+
 def items_for(pattern, letters=LETTERS, family="std"):
     lens = PATTERNS[pattern] if isinstance(pattern, str) else pattern
+    if family == "falsy":
+        return {l: tuple(FALSY[l][: lens[LETTERS.index(l)]]) for l in letters}
     if family == "numeric":
         return {l: tuple(NUMERIC[l][: lens[LETTERS.index(l)]]) for l in letters}
     if family == "tricky":
